@@ -7,7 +7,7 @@ import numpy as np
 from . import common as C
 
 PROPERTY = "C16"
-BUDGET = {"quick": 200, "thorough": 2400}
+BUDGET = {"quick": 200, "thorough": 1200}
 LEVEL = "model_checking"
 BOUNDS = {
     "quick": "one VariableElimination / BeliefPropagation / CausalInference engine, sequences of 3 questions (query, map_query, virtual evidence, "
